@@ -210,8 +210,8 @@ func genNegScript(g G, devPct int) NegScript {
 	if s.Resume == ResumeUnreadable {
 		s.ResumeAlt = g.N("resume-alt", len(ResumeUnreadableReplies))
 	}
-	s.Bind = dev("bind", 6)
-	s.SessionRep = dev("sessionrep", 4)
+	s.Bind = dev("bind", 8)
+	s.SessionRep = dev("sessionrep", 6)
 	s.Enable = 0
 	if g.Pct("enable-dev", devPct) {
 		s.Enable = 2 + g.N("enable", 4)
